@@ -85,7 +85,7 @@ def _check_value(f, v):
         lo, hi = _INT_TYPES[t]
         ok = (v >= lo) & (v <= hi) if isinstance(v, SymInt) else (lo <= v <= hi)
         if not bool(ok):
-            raise ValueError("Value out of range: %s" % (v,))
+            raise ValueError("Value out of range for field %s (%s)" % (f.name, "a solver-chosen value" if isinstance(v, SymInt) else v))
     elif t in (FD.TYPE_DOUBLE, FD.TYPE_FLOAT):
         if isinstance(v, bool) or not isinstance(v, (int, float, SymInt, SymReal)):
             raise TypeError("expected float")
